@@ -79,7 +79,9 @@ Record wrapper := {
   w_unknown : nat;                              (* statements of the body the extractor did not recognise *)
   w_rkind : pkind;                              (* kind of the C++ result *)
   w_result : rconv;                             (* how the body returns it *)
-  w_buf : bool                                  (* a bufferify variant: the result travels through an argument *)
+  w_buf : bool;                                 (* a bufferify variant: the result travels through an argument *)
+  w_this_const : bool;                          (* the object pointer recovered from the capsule is a pointer to const *)
+  w_fconst : bool                               (* the C++ member function is declared const *)
 }.
 
 (* the documented way a result of a given kind is returned; None = outside the covered grammar *)
@@ -122,7 +124,10 @@ Fixpoint str_list_eqb (a b : list string) : bool :=
 
 Definition call_ok (w : wrapper) : bool :=
   (String.eqb (w_kind w) "function" && String.eqb (w_call w) "function" && String.eqb (w_this w) "")
-  || (String.eqb (w_kind w) "method" && String.eqb (w_call w) "method" && String.eqb (w_this w) "self")
+  (* a const member is called through a pointer to const and a non-const one through a plain pointer: with a const / non-const
+     overload pair in the class the other constness selects the other member *)
+  || (String.eqb (w_kind w) "method" && String.eqb (w_call w) "method" && String.eqb (w_this w) "self"
+      && Bool.eqb (w_this_const w) (w_fconst w))
   || (String.eqb (w_kind w) "static" && String.eqb (w_call w) "static" && String.eqb (w_this w) "")
   || (String.eqb (w_kind w) "ctor" && String.eqb (w_call w) "new" && String.eqb (w_this w) "")
   || (String.eqb (w_kind w) "dtor" && String.eqb (w_call w) "delete" && String.eqb (w_this w) "self").
